@@ -363,8 +363,8 @@ class Ctx:
             raise RoleError('no publish primitive found')
         return out
 
-    def _role_finalizer(self):
-        """Local fn taking a NamedTempFile by value and returning io::Result<TempPath>."""
+    def _role_finalizers(self):
+        """Local fns taking a NamedTempFile by value and returning io::Result<TempPath> (one today)."""
         cands = []
         for k, b in self.B.items():
             if b['def_kind'] != 'Fn' or b['arg_count'] < 1:
@@ -373,9 +373,12 @@ class Ctx:
             r = self.T[b['locals'][0]['ty']]
             if a.get('adt') == 'tempfile::NamedTempFile' and 'tempfile::TempPath' in r['s']:
                 cands.append(k)
-        if len(cands) != 1:
-            raise RoleError('finalizer: expected one fn(NamedTempFile, ..)->Result<TempPath>, found %s' % cands)
-        return cands[0]
+        if not cands:
+            raise RoleError('finalizer: no fn(NamedTempFile, ..)->Result<TempPath> found')
+        return sorted(cands)
+
+    def _role_finalizer(self):
+        return self.role('finalizers')[0]
 
 
 # --------------------------------------------------------------------------- tags
